@@ -238,7 +238,8 @@ func BareRepeater(n *Node) bool {
 	case KQuant:
 		return true
 	case KGroup:
-		if n.G == GNon || n.G == GAtomic {
+		if n.G == GNon || n.G == GAtomic || (n.G == GCap && n.Eff.N) {
+			// (a plain group under ExplicitCapture does not capture; known only after annotation)
 			return BareRepeater(n.Kids[0])
 		}
 	case KOpt:
@@ -279,7 +280,7 @@ func coalesces(n *Node) bool {
 		if k.K == KEmpty || k.K == KComment || (k.K == KOpt && len(k.Kids) == 0) || (k.K == KLit && len(k.R) == 0) {
 			continue
 		}
-		for (k.K == KGroup && (k.G == GNon || k.G == GAtomic)) || (k.K == KOpt && len(k.Kids) > 0) {
+		for (k.K == KGroup && (k.G == GNon || k.G == GAtomic || (k.G == GCap && k.Eff.N))) || (k.K == KOpt && len(k.Kids) > 0) {
 			k = k.Kids[0]
 		}
 		if k.K == KQuant {
